@@ -149,7 +149,7 @@ def splicable(h):
     return True
 
 
-def splice(h, binding, context, target, caller_names, tag):
+def splice(h, binding, context, target, caller_names, tag, nonnull=None):
     """statements replacing the call; None if impossible"""
     body = [copy.deepcopy(st) for st in h.node.body if not (isinstance(st, ast.Expr) and isinstance(st.value, ast.Constant) and isinstance(st.value.value, str))]
     body = eliminate_early_returns(body)
@@ -168,7 +168,38 @@ def splice(h, binding, context, target, caller_names, tag):
                 # parameter re-assigned inside the helper: keep using the temp name
                 pass
     renames = {}
+    # helper locals that are returned straight into like-named targets of this very call need no renaming:
+    # `mu_part, Q = self._terms(...)` with `return mu_part, Q` in the helper
+    keep = set()
+    if context == "assign" and target is not None and len(target) == 1:
+        tels = target[0].elts if isinstance(target[0], ast.Tuple) else [target[0]]
+        rets = [n for st in body for n in ast.walk(st) if isinstance(n, ast.Return) and n.value is not None]
+        tail = [r for r in rets if not isinstance(r.value, ast.Tuple) or not all(isinstance(v, (ast.Constant, ast.List, ast.Call)) for v in r.value.elts)]
+        # the (single) return of locals decides the naming; returns of literals (early exits) are left as they are
+        if all(isinstance(t, ast.Name) for t in tels) and len(tail) == 1:
+            r = tail[0]
+            rels = r.value.elts if isinstance(r.value, ast.Tuple) else [r.value]
+            tn = [t.id for t in tels]
+            if len(rels) == len(tels) and all(isinstance(v, ast.Name) for v in rels) and len(set(tn)) == len(tn):
+                rnm = [v.id for v in rels]
+                body_names = set()
+                for st in body:
+                    body_names |= _used_names(st)
+                arg_names = set()
+                for a in binding.values():
+                    arg_names |= _used_names(a)
+                ok = len(set(rnm)) == len(rnm) and all(x in helper_assigned and x not in binding for x in rnm)
+                # a target name must not already mean something else inside the helper body or its arguments
+                ok = ok and all((t == x) or (t not in body_names and t not in arg_names) for t, x in zip(tn, rnm))
+                if ok:
+                    for t, x in zip(tn, rnm):
+                        if t == x:
+                            keep.add(x)
+                        else:
+                            renames[x] = t
     for nm in helper_assigned:
+        if nm in keep or nm in renames:
+            continue
         if nm in binding:
             if nm in subst and isinstance(subst[nm], ast.Name):
                 renames[nm] = subst[nm].id
@@ -204,9 +235,122 @@ def splice(h, binding, context, target, caller_names, tag):
     elif context == "return":
         if not _ends_in_return(body):
             body = body + [ast.Return(value=None)]
-    out = pre + body
+    out = simplify(pre + body, nonnull or set())
     for st in out:
         ast.fix_missing_locations(st)
+    return out
+
+
+def _static_test(t, nonnull):
+    """True / False when the test is decided statically after parameter substitution, else None"""
+    if isinstance(t, ast.Compare) and len(t.ops) == 1 and isinstance(t.ops[0], (ast.Is, ast.IsNot)):
+        l, r = t.left, t.comparators[0]
+        is_none = lambda x: isinstance(x, ast.Constant) and x.value is None
+        if is_none(l) and is_none(r):
+            return isinstance(t.ops[0], ast.Is)
+        for a, b in ((l, r), (r, l)):
+            if is_none(b) and ((isinstance(a, ast.Name) and a.id in nonnull) or (isinstance(a, ast.Constant) and a.value is not None)):
+                return isinstance(t.ops[0], ast.IsNot)
+    if isinstance(t, ast.UnaryOp) and isinstance(t.op, ast.Not):
+        v = _static_test(t.operand, nonnull)
+        return None if v is None else (not v)
+    if isinstance(t, ast.Constant) and isinstance(t.value, bool):
+        return t.value
+    return None
+
+
+def simplify(stmts, nonnull):
+    """dead-arm elimination for tests decided by the substituted arguments (`if None is not None:`), and merging of
+    `v = a; v = g(v)` re-definitions in one statement list into a single definition"""
+    out = []
+    for st in stmts:
+        if isinstance(st, ast.If):
+            v = _static_test(st.test, nonnull)
+            if v is True:
+                out += simplify(st.body, nonnull)
+                continue
+            if v is False:
+                out += simplify(st.orelse, nonnull)
+                continue
+            st.body = simplify(st.body, nonnull)
+            st.orelse = simplify(st.orelse, nonnull)
+        out.append(st)
+    # merge re-definitions
+    res = []
+    for st in out:
+        if isinstance(st, ast.Assign) and len(st.targets) == 1 and isinstance(st.targets[0], ast.Name):
+            nm = st.targets[0].id
+            reads = [x for x in ast.walk(st.value) if isinstance(x, ast.Name) and x.id == nm]
+            if reads:
+                # previous definition of nm in this list, with nothing in between touching nm
+                j = len(res) - 1
+                prev = None
+                while j >= 0:
+                    pj = res[j]
+                    if isinstance(pj, ast.Assign) and len(pj.targets) == 1 and isinstance(pj.targets[0], ast.Name) and pj.targets[0].id == nm:
+                        prev = j
+                        break
+                    if nm in _used_names(pj) or not isinstance(pj, (ast.Assign, ast.Expr)):
+                        break
+                    j -= 1
+                if prev is not None and nm not in _used_names(res[prev].value):
+                    val = _Rename({}, {nm: res[prev].value}).visit(copy.deepcopy(st.value))
+                    new = ast.Assign(targets=[ast.Name(id=nm, ctx=ast.Store())], value=val, lineno=getattr(st, "lineno", 0), col_offset=0)
+                    del res[prev]
+                    res.append(new)
+                    continue
+        res.append(st)
+    return res
+
+
+_NONNULL_CALLS = ("np.array", "np.asarray", "np.zeros", "np.ones", "np.empty", "np.full", "np.arange", "np.concatenate", "np.unique", "np.where")
+
+
+def _nonnull_expr(e):
+    if isinstance(e, ast.Call):
+        return U(e.func) in _NONNULL_CALLS
+    if isinstance(e, (ast.List, ast.Tuple, ast.Dict, ast.Set, ast.ListComp, ast.DictComp, ast.SetComp, ast.JoinedStr)):
+        return True
+    return isinstance(e, ast.Constant) and e.value is not None
+
+
+def nonnull_names(repo, f):
+    """locals of f with one definition that is provably not None: an array constructor, a display, or the i-th element of
+    the tuple returned by a repository function whose only return is a tuple of such values"""
+    if getattr(f, "_nonnull", None) is not None:
+        return f._nonnull
+    from .astutil import single_defs, resolve_helper as _rh
+    out = set()
+    sd = single_defs(f.node)
+    for k, v in sd.items():
+        if _nonnull_expr(v):
+            out.add(k)
+    counts = {}
+    for n in walk_own(f.node):
+        if isinstance(n, (ast.Assign, ast.AugAssign, ast.AnnAssign, ast.For)):
+            tg = n.targets if isinstance(n, ast.Assign) else [n.target]
+            for t in tg:
+                for x in ast.walk(t):
+                    if isinstance(x, ast.Name):
+                        counts[x.id] = counts.get(x.id, 0) + 1
+    for n in walk_own(f.node):
+        if isinstance(n, ast.Assign) and len(n.targets) == 1 and isinstance(n.targets[0], ast.Tuple) and isinstance(n.value, ast.Call) \
+                and all(isinstance(x, ast.Name) for x in n.targets[0].elts):
+            h, skip = _rh(repo, f, n.value)
+            if h is None:
+                continue
+            rets = [r for r in walk_own(h.node) if isinstance(r, ast.Return)]
+            if len(rets) != 1 or not isinstance(rets[0].value, ast.Tuple) or len(rets[0].value.elts) != len(n.targets[0].elts):
+                continue
+            hsd = single_defs(h.node)
+            for t, v in zip(n.targets[0].elts, rets[0].value.elts):
+                vv = hsd.get(v.id) if isinstance(v, ast.Name) else v
+                if vv is not None and _nonnull_expr(vv) and counts.get(t.id, 0) == 1:
+                    out.add(t.id)
+    try:
+        f._nonnull = out
+    except Exception:
+        pass
     return out
 
 
@@ -244,7 +388,7 @@ def inline_new_helpers(repo, new_funcs, resolve_helper, bind_args, max_rounds=2)
                             b = bind_args(h, skip, call)
                             if b is not None:
                                 counter[0] += 1
-                                rep = splice(h, b, context, target, caller_names, f"h{counter[0]}")
+                                rep = splice(h, b, context, target, caller_names, f"h{counter[0]}", nonnull=nonnull_names(repo, f))
                                 if rep is not None:
                                     for x in rep:
                                         caller_names.update(_used_names(x))
